@@ -34,7 +34,8 @@ def confirm(pid, k):
     wt = Path(f"/tmp/seed/{pid}")
     seed = wt / "SEED"
     patch, dm, notes = seed / f"patch_{k}.diff", seed / f"demo_{k}.py", seed / f"notes_{k}.md"
-    res = {"property": pid, "k": k}
+    prop = pid[-3:]
+    res = {"property": prop, "k": k, "round": pid[:-3] or "R1"}
     sh(["git", "checkout", "--", "."], wt)
     # rebase the worktree onto the current /repo HEAD so the patch is confirmed against what the checks see
     head = subprocess.run(["git", "-C", "/repo", "rev-parse", "HEAD"], capture_output=True, text=True).stdout.strip()
@@ -64,7 +65,7 @@ def confirm(pid, k):
         if notes.exists():
             shutil.copy(notes, d / "notes.md")
         meta = {
-            "property": pid,
+            "property": prop,
             "source": "independent sub-agent given only the property text and a scratch worktree",
             "needs_to_manifest": (notes.read_text()[:1500] if notes.exists() else ""),
             "confirmed_by": {
